@@ -2,12 +2,13 @@
 container histories.  Every choice comes from the random.Random passed in."""
 from pyscript import Op, V, NONE, vs
 
-NAMES = ['users', 'posts', 'orders', 'order items', 'Таблица', 'a', 'select', 'T1', 'x_y']
+NAMES = ['users', 'posts', 'orders', 'order items', 'Таблица', 'a', 'select', 'T1', 'x_y', 'caf\u00e9', 'cafe\u0301']
 COLNAMES = ['id', 'name', 'user_id', 'created at', 'b', 'status', 'ref', 'c1', 'c2', 'total']
 SCHEMAS = ['public', 'public', 'public', 'auth', 'my schema', 'Public']
 TYPES = ['int', 'integer', 'varchar', 'varchar(255)', 'numeric(10, 2)', 'int[]', 'text', 'timestamp']
 ODD_TYPES = ['my type', 'double precision', 'a.b', 'a.b.c']
-NICE_TEXT = ['note', 'a longer note', 'x', 'some text here', 'line one\nline two', 'é 中 💸', 'tab\there',
+NICE_TEXT = ['note', 'a longer note', 'x', 'some text here', 'line one\nline two', 'é 中 💸', 'tab\there', 'ALTER TABLE All Rows CREATE',
+             'de\u0301compose\u0301 \u2126',
              'a single line that is rather long: ' + 'lorem ipsum dolor sit amet ' * 6]
 NASTY_TEXT = ["it's", 'say "hi"', 'back\\slash', '`tick`', '{brace}', 'a\n\n  b', "'''", '//c', '/* c */', '  lead',
               'trail  ', '#', "x'", '{', '}', '{}', '{0}', '{c}', 'a\n b\n  c', '']
@@ -283,7 +284,7 @@ def gen_edits(g, info, n, sql_benign=False):
     for _ in range(n):
         kind = r.choice(['tname', 'tschema', 'talias', 'cname', 'ctype', 'cflag', 'cflag', 'cdefault', 'cnote', 'tnote', 'ename',
                          'rtype', 'rinline', 'rname', 'raction', 'addcol', 'addidx', 'delidx', 'additem', 'tcomment',
-                         'eschema', 'ccomment', 'rcomment', 'gname', 'allow', 'rseq', 'rseq'])
+                         'eschema', 'ccomment', 'rcomment', 'gname', 'allow', 'rseq', 'rseq', 'iname'])
         t = r.choice(tabs)
         cols = info['columns'][t]
         if kind == 'tname':
@@ -348,6 +349,9 @@ def gen_edits(g, info, n, sql_benign=False):
             ix = g.emit(Op(13, V('subjects', [(1, r.choice(cols))]), 'ix%d' % len(g.ops), r.random() < 0.5, None, False, NONE, None))   # unique name: an index equal to an existing one would make delete_index hit D23 (covered by C09)
             g.emit(Op(52, t, ix))
             info['indexes'][t] = info['indexes'][t] + [ix]
+        elif kind == 'iname' and info['indexes'][t]:
+            # the name of an index cleared or changed after construction ('' means no name, as in the constructor)
+            g.emit(Op(60, r.choice(info['indexes'][t]), 2, vs(r.choice(['', None, 'renamed_ix']))))
         elif kind == 'delidx' and info['indexes'][t]:
             ix = r.choice(info['indexes'][t])
             g.emit(Op(53, t, V('obj', ix)))
